@@ -12,7 +12,7 @@ CONSTANTS MaxLen, Templates,   \* Templates: "few" | "all"
           TypeSet             \* "all" | "six" | "containers" (typed maps and slices: what a sloppy "is it an array?" test would navigate)
 
 \* Go types of the harness table usable as leaves (14 and 19 are typed nil containers: JSON-typed)
-LeafTypes == {0, 1, 2, 3, 4, 5, 6, 7, 8, 9, 10, 11, 12, 13, 15, 16, 17, 18, 20, 21}
+LeafTypes == {0, 1, 2, 3, 4, 5, 6, 7, 8, 9, 10, 11, 12, 13, 15, 16, 17, 18, 20, 21, 22}      \* 22: *interface{} pointing at a JSON object
 SelfEq(ty) == ty # 15                 \* a non-nil func is not reflect.DeepEqual to itself
 IdLess(ty) == ty \in {1, 2, 13}       \* struct{}{}, opqEmpty{}, (*int)(nil): one value per type
 Op(id, ty) == Opq(IF IdLess(ty) THEN 1 ELSE id, ty, SelfEq(ty))
@@ -20,7 +20,8 @@ Leaves(ty) == IF MaxLen = 1 THEN {N1, Sa, Op(1, ty), Op(2, ty)} ELSE {N1, Op(1, 
 
 DocsOf(ty) ==
   LET L == Leaves(ty) IN
-  {Oab(x, y) : x \in L, y \in L} \cup {Arr(<<Oa(x), Oa(y), Oab(x, N1)>>) : x \in L, y \in L}
+  {Op(1, ty)}      \* the document itself is the opaque value
+  \cup {Oab(x, y) : x \in L, y \in L} \cup {Arr(<<Oa(x), Oa(y), Oab(x, N1)>>) : x \in L, y \in L}
   \cup {Oab(Arr(<<Oa(x), Oa(N1), Oa(Sa)>>), y) : x \in L, y \in L}     \* `$.a[?(@.a < $.b)]`: members against a `$` operand
   \cup (IF Templates = "all" THEN {Oa(Arr(<<x, y>>)) : x \in L, y \in L} \cup {Arr(<<x, Oa(y)>>) : x \in L, y \in L} ELSE {})
 
@@ -35,7 +36,7 @@ FSeqs == { <<FF(Fn_f1)>>, <<AF(Fn_g1)>>, <<FF(Fn_fid), AF(Fn_g2)>> }
 
 VARIABLES ty, doc, steps, funcs, n
 vars == <<ty, doc, steps, funcs, n>>
-Init == ty \in (IF TypeSet = "all" THEN LeafTypes ELSE IF TypeSet = "containers" THEN {3, 6, 7} ELSE {0, 1, 6, 13, 15, 21}) /\ doc = Null /\ steps = <<>> /\ funcs = <<>> /\ n = 0
+Init == ty \in (IF TypeSet = "all" THEN LeafTypes ELSE IF TypeSet = "containers" THEN {3, 6, 7} ELSE {0, 1, 6, 13, 15, 21, 22}) /\ doc = Null /\ steps = <<>> /\ funcs = <<>> /\ n = 0
 Next == \/ doc = Null /\ doc' \in DocsOf(ty) /\ UNCHANGED <<ty, steps, funcs, n>>
         \/ /\ doc # Null /\ funcs = <<>> /\ UNCHANGED <<ty, doc>>
            /\ \/ /\ n < MaxLen /\ n' = n + 1 /\ UNCHANGED funcs
